@@ -278,8 +278,8 @@ def chunks(lst, n):
     return [lst[i:i + k] for i in range(0, len(lst), k)]
 
 
-CHUNK_WALL_S = int(os.environ.get("VERIF_CHUNK_WALL_S", "900"))
-JOB_WALL_S = int(os.environ.get("VERIF_JOB_WALL_S", "150"))
+CHUNK_WALL_S = int(os.environ.get("VERIF_CHUNK_WALL_S", "600"))
+JOB_WALL_S = int(os.environ.get("VERIF_JOB_WALL_S", "60"))
 
 
 def run_driver_parallel(script, jobs, nproc=8, hashseeds=(0,), timeout=3600, extra_env=None):
@@ -297,11 +297,15 @@ def run_driver_parallel(script, jobs, nproc=8, hashseeds=(0,), timeout=3600, ext
         except subprocess.TimeoutExpired:
             # the code under test did not come back (a loop inside compiled code is out of reach of the driver's own CPU budget): every job of
             # the chunk is run again on its own under a short wall-clock limit; the ones that hang are "no result" observations, not machinery errors
-            rs = []
+            rs, hung = [], 0
             for i in idxs:
+                if hung >= 3:      # three jobs of this chunk already hang: that is reported; the rest of the chunk is not waited for
+                    rs.append({"noresult": True, "hung": True, "raised": "not run: earlier jobs of the same batch did not come back"})
+                    continue
                 try:
                     rs.append(run_driver(script, {"jobs": [jobs[i]]}, hashseed=hs, timeout=JOB_WALL_S, extra_env=extra_env)["results"][0])
                 except subprocess.TimeoutExpired:
+                    hung += 1
                     rs.append({"noresult": True, "hung": True, "raised": "no result within %d s" % JOB_WALL_S})
             return idxs, rs, hs
     res = [None] * len(jobs)
